@@ -273,7 +273,9 @@ int lha_input_stream_skip(LHAInputStream *stream, size_t bytes)
 
 			result = do_read(stream, data, len);
 
-			if (result < 0) {
+			// End of stream (0) as well as an error (-1) means
+			// that the data cannot be skipped.
+			if (result <= 0) {
 				return 0;
 			}
 
